@@ -47,8 +47,12 @@ RULE = (
     'to a fresh name (copyall False/True); mask by a scalar predicate; stack '
     'along TSTEP (half) or ROW/COL with itself / a copy / a window of itself '
     '/ 2-3 tiles cut with sliceDimensions and re-assembled in order (single '
-    'operand or list), along LAY with re-assembled tiles only (abutting '
-    'level edges); one source in eight also holds a standard-dimension '
+    'operand or list), along LAY with re-assembled tiles or two abutting '
+    'blocks each derived by slice / apply(LAY=callable) / slice+interpSigma '
+    '(abutting level edges only); VGLVLS is handed to from_arrays as '
+    'float32 array, float64 array or list and half of the files use tenths '
+    '(not float32-representable); one source in eight starts on a date '
+    'below 1400000 (YYDDD, years before 1400); one source in eight also holds a standard-dimension '
     'variable with an over-long (unlistable) name; mfopen: the file is cut '
     'into 2-3 contiguous pieces along TSTEP/LAY/ROW/COL, the pieces are '
     'saved as netCDF files and re-assembled through pncmfopen(paths, '
@@ -57,7 +61,7 @@ RULE = (
     'are not used); interpSigma '
     '(linear needs >=2 layers, conserve) to 1-6 new layers.  Half of the '
     'chains are drawn from the complement of the input classes of the known '
-    'findings (currently: no stack along LAY).  Oracle after the construction and after every operation that '
+    'findings (currently none).  Oracle after the construction and after every operation that '
     'returns: NVARS == len(VAR-LIST)/16 == number of 16-wide names in '
     'VAR-LIST == len(dimension VAR) == TFLAG.shape[1] (VAR and TFLAG of '
     'width 1 when NVARS == 0 and the file holds no listable variable); '
@@ -65,7 +69,7 @@ RULE = (
     'multiple of 16; every listed name is a variable with one of the two '
     'standard dimension tuples; NROWS/NCOLS/NLAYS equal the lengths of '
     'ROW/COL/LAY where the dimension exists; len(VGLVLS) == NLAYS+1; SDATE, '
-    'STIME == TFLAG[0,0,:].  All comparisons are integer/exact.  An '
+    'STIME == TFLAG[0,0,:]; every VAR column of TFLAG holds the same flags.  All comparisons are integer/exact.  An '
     'operation that raises yields no result and is counted (label raised:*), '
     'not judged.  The chain stops at the first incoherent result (no '
     'cascades).  Secondary oracle: the structural keys of '
@@ -98,7 +102,7 @@ ASSUMPTIONS = [
     'an operation that raises is not a result (C01 judges completion)',
     'audit_meta is used only as a second opinion; it raises KeyError on '
     'boundary files that carry NROWS/NCOLS (counted as audit-raised)']
-BUDGET = {'quick': dict(examples=3000, max_s=240, shrink_cap=250),
+BUDGET = {'quick': dict(examples=2400, max_s=240, shrink_cap=250),
           'thorough': dict(examples=30000, max_s=3000, shrink_cap=400)}
 
 REDUCERS = ('mean', 'sum', 'min', 'max', 'std')
@@ -201,6 +205,11 @@ def coherence(f, std_dims):
         if stt is None or int(stt) != int(t0[1]):
             out.append(('stime-tflag', 'STIME = %r but TFLAG[0,0] = %r '
                         '(SDATE %r)' % (stt, t0.tolist(), sd)))
+        tf = np.asarray(tflag[:])
+        if not (tf == tf[:, :1, :]).all():
+            out.append(('tflag-columns', 'the VAR columns of TFLAG differ: '
+                        'column 0 %r, all %r' % (tf[:2, 0].tolist(),
+                                                 tf[:2].tolist())))
     return out
 
 
@@ -448,6 +457,16 @@ def _apply(f, a):
     return f.applyAlongDimensions(**kw)
 
 
+def _block(f, lo, hi, how):
+    if how == 'apply':
+        return f.applyAlongDimensions(LAY=lambda x: x[lo:hi])
+    piece = f.sliceDimensions(LAY=slice(lo, hi))
+    if how == 'interp':
+        return piece.interpSigma(np.array(f.VGLVLS[lo:hi + 1]),
+                                 interptype='conserve')
+    return piece
+
+
 def _stack(f, a):
     w = a['with']
     dim = a.get('dim', 'TSTEP')
@@ -457,6 +476,14 @@ def _stack(f, a):
         return f.stack(f.copy(), dim)
     if w[0] == 'slice':
         return f.stack(f.sliceDimensions(**{dim: slice(w[1], w[2])}), dim)
+    if w[0] == 'blocks':
+        # ['blocks', cut, how_top, how_bottom]: two abutting LAY blocks of
+        # the file, each derived by slice, by apply(LAY=callable) or by
+        # slice + interpSigma onto its own edges, re-stacked along LAY
+        n = len(f.dimensions['LAY'])
+        parts = [_block(f, lo, hi, how) for lo, hi, how in
+                 ((0, w[1], w[2]), (w[1], n, w[3]))]
+        return parts[0].stack(parts[1], 'LAY')
     # ['tiles', [c1, c2, ...]]: the file is cut at the given indices with
     # sliceDimensions and re-assembled in order (list form for >2 pieces)
     cuts = [0] + list(w[1]) + [len(f.dimensions[dim])]
@@ -657,21 +684,27 @@ def draw_step(draw, s, avoid):
         # along LAY (tiles only: the level edges of the pieces abut, which
         # is the only case in which n+1 edges describe the result)
         cand = [d for d in ('ROW', 'COL') if d in dims]
-        if dims.get('LAY', 0) >= 2 and not avoid:
-            cand.append('LAY')
+        if dims.get('LAY', 0) >= 2:
+            cand += ['LAY', 'LAY']
         dim = 'TSTEP'
-        if cand and draw(st.booleans()):
+        if cand and draw(st.integers(0, 2)) > 0:
             dim = draw(st.sampled_from(cand))
         n = dims[dim]
         kinds = ['self', 'copy', 'slice'] if dim != 'LAY' else []
         if n >= 2 and dim != 'TSTEP':
             kinds += ['tiles', 'tiles']
+        if n >= 2 and dim == 'LAY':
+            kinds += ['blocks', 'blocks', 'blocks']
         kind = draw(st.sampled_from(kinds))
         if kind in ('self', 'copy'):
             w = kind
         elif kind == 'slice':
             a = draw(st.integers(0, n - 1))
             w = ['slice', a, draw(st.integers(a + 1, n))]
+        elif kind == 'blocks':
+            hows = ['slice', 'apply', 'interp']
+            w = ['blocks', draw(st.integers(1, n - 1)),
+                 draw(st.sampled_from(hows)), draw(st.sampled_from(hows))]
         else:
             k = draw(st.integers(1, min(2, n - 1)))
             w = ['tiles', sorted(draw(st.lists(st.integers(1, n - 1),
@@ -706,7 +739,8 @@ def _tier():
 def interactive(draw):
     r = Result()
     avoid = draw(st.booleans())
-    spec = draw(I.ioapispecs(max_steps=6, cross_share=0, longvar_share=8))
+    spec = draw(I.ioapispecs(max_steps=6, cross_share=0, longvar_share=8,
+                             vglvls_kinds=True, short_years=8))
     if avoid:
         r.label('complement-of-known')
     nsteps = draw(st.integers(1, MAXSTEPS[_tier()]))
